@@ -110,10 +110,16 @@ struct P_projm : yp::release::rebind<P_projm>::replace<yp::rtti, proj_rtti>::rem
 struct P_projv : yp::release::rebind<P_projv>::replace<yp::rtti, proj_rtti>::remove<yp::type_hash> {};
 // deferred static rtti
 struct P_def : yp::debug::rebind<P_def>::replace<yp::rtti, def_rtti> {};
-// further instances for isolation (C14) and the concurrent "other" policy (C16)
-struct P_b : yp::debug::rebind<P_b>::replace<yp::rtti, dyn_rtti> {};
-struct P_c : yp::release::rebind<P_c>::replace<yp::rtti, dyn_rtti>::remove<yp::type_hash>::replace<
-                 yp::external_vptr, yp::vptr_map<P_c>> {};
+// further instances for isolation (C14) and the concurrent "other" policy (C16).  These two
+// are built in the other order - facets replaced / removed on the stock policy first, rebind
+// last - from one common base, so that a rebind that leaves a replaced facet bound to the
+// stock policy makes them share that facet's state (v-table pointer map, error handler).
+// P_b keeps the checked hash next to vptr_map (what `default_policy::replace<external_vptr,
+// vptr_map<...>>` gives a user who does not also remove type_hash); P_c removes it.
+using late_rebind_base = yp::debug::replace<yp::rtti, dyn_rtti>::replace<yp::external_vptr, yp::vptr_map<yp::debug>>::replace<
+    yp::error_handler, yp::vectored_error<yp::debug>>;
+struct P_b : late_rebind_base::rebind<P_b> {};
+struct P_c : late_rebind_base::remove<yp::type_hash>::rebind<P_c> {};
 
 // facets with explicit non-default extra template arguments, and a policy obtained from
 // it by rebind: the rebound policy must get its *own* map, handler and stream
